@@ -20,13 +20,7 @@ Definition transpose_pos (p : list nat) (a : darr) : res darr :=
 
 Definition transpose (rs : list axref) (a : darr) : res darr :=
   match rs with
-  | [] =>
-      match List.length (axes a) with
-      | 0 => Ok a
-      | 1 => transpose_pos [0] a
-      | 2 => transpose_pos [1; 0] a
-      | _ => Err ValueError
-      end
+  | [] => transpose_pos (rev (seq 0 (List.length (axes a)))) a     (* a.T / a.transpose(): all dimensions reversed, as NumPy *)
   | _ => let! p := mapM (axis_info a) rs in transpose_pos p a
   end.
 
